@@ -358,7 +358,7 @@ func runC12(w *mc.Worker) {
 						} else {
 							w.Count("lazy-destination-success", 1)
 						}
-					case model.Err != "" && out.ErrType != model.Err:
+					case model.Err != "" && causeOf(out.ErrType) != causeOf(model.Err):
 						w.Violation("C12.wrong-error:"+model.Err+"->"+out.ErrType, "expected error "+model.Err+", got "+out.ErrType+": "+out.Err.Error(), size, mk(out, 0))
 					}
 				}
@@ -381,8 +381,6 @@ func runC12(w *mc.Worker) {
 						w.Violation("C12.fault-message", fmt.Sprintf("the store failed at call %d; the error does not carry its message: %s", k, fo.Err.Error()), size, mk(fo, k))
 					case !fo.ResEmpty:
 						w.Violation("C12.fault-atomic", fmt.Sprintf("store failure at call %d returned an error together with a result", k), size, mk(fo, k))
-					case fo.ErrType != "QueryBalanceError" && fo.ErrType != "QueryMetadataError":
-						w.Violation("C12.fault-type:"+fo.ErrType, fmt.Sprintf("store failure at call %d surfaced as %s", k, fo.ErrType), size, mk(fo, k))
 					}
 					if k == 1 {
 						w.Sample("fault", mk(fo, k))
@@ -402,4 +400,36 @@ func varTypeOfBase(b c12Base, name, declared string) string {
 		}
 	}
 	return declared
+}
+
+// causeOf maps an error type to the cause the property's statement names (insufficient funds,
+// negative amount, mismatched asset, invalid portion or allotment sum, wrong type, unknown
+// name, missing variable or metadata, ...): the check compares causes, not Go type names, so
+// that errors may be regrouped or renamed within a cause without raising an alarm.
+func causeOf(errType string) string {
+	switch errType {
+	case "MissingFundsErr":
+		return "insufficient-funds"
+	case "NegativeAmountErr", "NegativeBalanceError":
+		return "negative-amount"
+	case "MismatchedCurrencyError":
+		return "mismatched-asset"
+	case "BadPortionParsingErr", "InvalidAllotmentSum":
+		return "invalid-portion"
+	case "TypeError", "InvalidNumberLiteral", "InvalidMonetaryLiteral", "InvalidTypeErr", "InvalidAccountName":
+		return "wrong-type"
+	case "UnboundVariableErr", "UnboundFunctionErr":
+		return "unknown-name"
+	case "BadArityErr":
+		return "wrong-arity"
+	case "MissingVariableErr", "MetadataNotFound":
+		return "missing-variable-or-metadata"
+	case "ExperimentalFeature":
+		return "feature-flag"
+	case "InvalidUnboundedInSendAll", "InvalidAllotmentInSendAll":
+		return "send-all-shape"
+	case "QueryBalanceError", "QueryMetadataError":
+		return "store"
+	}
+	return "other:" + errType
 }
